@@ -295,6 +295,29 @@ PROPS = {
                        "after all tasks ended no operation is left pending in the kernel and the runtime never blocks in io_uring_enter with nothing that could wake it."),
         "level_note": "Covers drop / token / late token / fail-fast / timeout routes against UnixStream recv, pipe read, TcpListener accept and read_multi. Both drivers. Connect and poll-fd victims are not covered.",
     },
+    "C07": {
+        "title": "Managed buffer pool: exclusive ownership and conservation",
+        "engine": "K",
+        "package": "check-k",
+        "bin": "check-k",
+        "design_ref": "§4, §7 C07",
+        "technique": "deterministic simulation with fault injection: the real runtime, drivers and buffer pool (io_uring provided-buffer ring on the simulated kernel, fallback pool on the polling driver); generated readers on pipes, Unix and TCP streams, UDP sockets and files run programs of managed reads, multishot streams dropped after a generated number of items and managed reads abandoned by drop / token / timeout around the arrival of their data, holding every buffer they get for a generated time; pool sizes 1..16, buffer lengths 8..64; kernel faults (reordered, lazy and interrupted completions, tiny rings, CQ overflow, multishot termination, short transfers); oracles: live handles never overlap, held bytes never change, the simulated kernel never selects a buffer the program holds, received bytes are the next unread part of the peer's stream, and after everything was released exactly pool-size buffers are obtainable and one more request fails with an error within 20 ms; choice-sequence minimisation and replay",
+        "tiers": {
+            "quick": {"runs": 300_000, "time_limit_s": 60},
+            "thorough": {"runs": 60_000_000, "time_limit_s": 1500},
+        },
+        "rule": K_RULE,
+        "real": K_REAL,
+        "stub": K_STUB,
+        "assumptions": K_ASSUME + [
+            "what a read abandoned in flight, or a multishot stream dropped early, had already taken off the channel may be lost with it: later buffers may start further on in the peer's stream, never earlier and never overlapping",
+            "the conservation probe runs when nothing is held and nothing is pending (on the fallback pool a pending managed read owns a buffer)",
+            "RecvMsg/RecvFrom managed variants and control data are not exercised",
+        ],
+        "level_text": ("Seeded exploration of managed/multishot read programs with arbitrary hold times, cancellations and stream drops on both pool implementations: two live buffer handles never overlap, a held buffer is never written or selected by the kernel, "
+                       "data arrives in order without duplication, every buffer comes back (the pool never shrinks or grows), and exhaustion is reported as an error, not a hang."),
+        "level_note": "Pool sizes 1, 2, 4, 8, 16 (the builder rounds to powers of two).",
+    },
     "C08": {
         "title": "File and pipe I/O matches the OS, identically on every driver",
         "engine": "K",
